@@ -30,6 +30,19 @@ impl<A: Actor> Receiver<A> {
     }
 }
 
+impl<A: Actor> Receiver<A> {
+    /// Closes the mailbox and drops every message that is still queued.
+    ///
+    /// The channel keeps queued items alive as long as any sender exists, so a
+    /// queued [`Call`](super::Call) would keep its reply channel open, and its
+    /// caller waiting, for as long as somebody holds the mailbox.
+    pub(crate) fn close(self) {
+        let Self { messages, stop } = self;
+        drop(stop);
+        messages.drain().for_each(drop);
+    }
+}
+
 pub(crate) enum MailboxEvent<A: Actor> {
     Message(Delivering<A>),
     Stop,
